@@ -32,6 +32,7 @@ type c16Op struct {
 	SysVia  int            `json:"system_context_derivation,omitempty"`
 	Flag    bool           `json:"entity_is_system_flag"`
 	Migrate bool           `json:"migrate,omitempty"`
+	Defer   bool           `json:"in_pre_commit_action,omitempty"`
 	Name    string         `json:"name"`
 	Tags    map[string]any `json:"tags,omitempty"`
 	Fields  []string       `json:"fields,omitempty"`
@@ -45,6 +46,7 @@ func init() {
 		Rule: "random histories over a BaseExtEntity store with the system-entity constraint: create/update/patch/delete x {ordinary, system} context (contexts mixed inside one transaction via GetSystemContext / NewSystemMutateContext) x " +
 			"{ordinary, system} entity, with update payloads that try to flip the flag in both directions (with and without the Migrate marker) and field checkers that include or skip written fields; " +
 			"the same operations through a child store of that store (incl. a child-store create over an existing parent-only system entity from an ordinary context), and tolerant callers that ignore the error of a refused update / delete, carry on in the same transaction and commit; " +
+			"the last operation of a third of the transactions runs inside a pre-commit action through the context the action is handed (ordinary unless the action derives a system context itself, also when earlier operations of the transaction derived one); " +
 			"part (b): all 32 combinations of (widget flag, flags of two gadgets that reference it through a cascade-delete fk, context, DeleteById / DeleteWhere): from an ordinary context the delete may only succeed when no system entity is in its cascade closure, refused deletes change nothing; " +
 			"part (c): the constraint declared on a child store: update / delete / DeleteWhere of a protected child entity through the child and through the parent store, from both context kinds; " +
 			"model predicts accept/reject; after every transaction every entity is read back (flag, name, tags) and compared, refused transactions must leave the whole-file dump unchanged; " +
@@ -76,7 +78,9 @@ func init() {
 				"child_constraint":   {"delete through the parent store from ordinary context", "delete through the child store from ordinary context", "update through the child store from ordinary context", "DeleteWhere through the parent store from ordinary context", "delete through the parent store from system context"},
 				"cascade":            {"any-system=true:ordinary:DeleteById", "any-system=true:ordinary:DeleteWhere", "any-system=true:system:DeleteById", "any-system=false:ordinary:DeleteById", "any-system=false:ordinary:DeleteWhere"},
 				"transaction_via":    {"Update", "Batch", "Update opened with a system context", "Batch opened with a system context"},
-				"tolerant":           {"update:plainctx:sysent", "patch:plainctx:sysent", "delete:plainctx:sysent"}}
+				"tolerant":           {"update:plainctx:sysent", "patch:plainctx:sysent", "delete:plainctx:sysent"},
+				"pre_commit_op": {"ordinary context, expected reject, system context derived earlier in the transaction=true", "ordinary context, expected reject, system context derived earlier in the transaction=false", "system context, expected ok, system context derived earlier in the transaction=false",
+					"ordinary context, expected ok, system context derived earlier in the transaction=true"}}
 		},
 	})
 }
@@ -363,6 +367,18 @@ func runC16(c *core.Ctx, idx int) {
 				}
 			}
 		}
+		// the last operation of some transactions runs inside a pre-commit action, through the context the action is
+		// handed: that is the caller's context (ordinary here), whatever contexts were derived from it earlier in the
+		// transaction; a system context is only what the action derives itself
+		if last := len(ops) - 1; last >= 0 && !ctx.IsSystemContext() && r.P(0.35) {
+			ops[last].Defer = true
+			c.Count("ops_in_pre_commit_actions", 1)
+			derivedEarlier := false
+			for _, op := range ops[:last] {
+				derivedEarlier = derivedEarlier || op.SysCtx
+			}
+			c.Cover("pre_commit_op", fmt.Sprintf("%s context, expected %s, system context derived earlier in the transaction=%v", ctxName(ops[last].SysCtx), ops[last].Exp, derivedEarlier))
+		}
 		expectFail := false
 		// every third transaction goes through Db.Batch instead of Db.Update
 		openTx := db.Update
@@ -374,6 +390,22 @@ func runC16(c *core.Ctx, idx int) {
 		}
 		err := openTx(ctx, func(ctx boltz.MutateContext) error {
 			for i, op := range ops {
+				if op.Defer {
+					i, op := i, op
+					ctx.AddPreCommitAction(func(actx boltz.MutateContext) error {
+						err := apply(actx, op)
+						c.Eval()
+						if (err == nil) != (op.Exp == "ok") {
+							c.Violationf(fmt.Sprintf("C16 outcome inside a pre-commit action: %s in %s context on %s entity expected %s", op.Kind, ctxName(op.SysCtx), entName(model, scratch, op), op.Exp),
+								map[string]any{"history": tailC16(hist, 5), "op_index": i}, "op %+v returned %v, model predicted %s", op, err, op.Exp)
+						}
+						return err
+					})
+					if op.Exp != "ok" {
+						expectFail = true
+					}
+					continue
+				}
 				err := apply(ctx, op)
 				c.Eval()
 				if (err == nil) != (op.Exp == "ok") {
